@@ -22,7 +22,9 @@ def real_run(fedjax, n, bs, k, mode, drop, variant, chain, sliced=0):
   sliced: 0 = a dataset built directly; 1, 2 = the same n examples obtained by slicing a larger dataset (once / twice)."""
   raw = bat.raw_examples(n, variant)
   ref = bat.apply_chain(chain, raw)
-  pre = fedjax.BatchPreprocessor(bat.CHAINS[chain])
+  # the chain as callers may pass it: a tuple, a list, or a one-shot iterable (generator / map)
+  fns = bat.CHAINS[chain]
+  pre = fedjax.BatchPreprocessor((fns, list(fns), (f for f in fns), map(lambda f: f, fns))[(n + bs + sliced) % 4])
   if sliced:
     parent = fedjax.ClientDataset(bat.raw_examples(n + 5, variant, offset=-2), pre)     # ids -1 .. n+3
     ds = parent[2:n + 2] if sliced == 1 else parent[1:][:n + 1][1:]
@@ -30,10 +32,21 @@ def real_run(fedjax, n, bs, k, mode, drop, variant, chain, sliced=0):
   else:
     ds = fedjax.ClientDataset(raw, pre)
   before = bat.checksum(raw)
+  style = (n + 2 * bs + k) % 3     # hyper-parameter object, keyword arguments only, or an object overridden by keywords
   if mode == 'padded':
-    view = ds.padded_batch(fedjax.PaddedBatchHParams(batch_size=bs, num_batch_size_buckets=k))
+    if style == 0:
+      view = ds.padded_batch(fedjax.PaddedBatchHParams(batch_size=bs, num_batch_size_buckets=k))
+    elif style == 1:
+      view = ds.padded_batch(batch_size=bs, num_batch_size_buckets=k)
+    else:
+      view = ds.padded_batch(fedjax.PaddedBatchHParams(batch_size=bs + 3, num_batch_size_buckets=k + 1), batch_size=bs, num_batch_size_buckets=k)
   else:
-    view = ds.batch(fedjax.BatchHParams(batch_size=bs, drop_remainder=drop))
+    if style == 0:
+      view = ds.batch(fedjax.BatchHParams(batch_size=bs, drop_remainder=drop))
+    elif style == 1:
+      view = ds.batch(batch_size=bs, drop_remainder=drop)
+    else:
+      view = ds.batch(fedjax.BatchHParams(batch_size=bs + 1, drop_remainder=not drop), batch_size=bs, drop_remainder=drop)
   first = [bat.check_batch(b, ref) for b in view]
   mid = bat.checksum(ds.raw_examples)
   second = [bat.check_batch(b, ref) for b in view]
